@@ -46,15 +46,38 @@ theorem scopes_restored (ev : Evalr ρ) (fuel : Nat) (st : St ρ) (e : Elem) (ki
 theorem withRng_scopes {α : Type} (st : St ρ) (r : Except Err (α × ρ)) : (withRng st r).1.scopes = st.scopes := by
   unfold withRng; split <;> rfl
 
+theorem lookupTable_append {β : Type} (a b : List (Str × β)) (k : Str) :
+    Attrs.lookupTable (a ++ b) k = (Attrs.lookupTable a k).or (Attrs.lookupTable b k) := by
+  induction a with
+  | nil => simp [Attrs.lookupTable]
+  | cons p rest ih =>
+    obtain ⟨k', v⟩ := p
+    simp only [List.cons_append, Attrs.lookupTable]
+    split <;> simp [ih]
+
+/-- the flattened environment handed to the expression evaluator denotes exactly `get_var`:
+    innermost scope first -/
+theorem env_denotes_lookup (st : St ρ) (k : Str) : Attrs.lookupTable st.env k = st.lookup k := by
+  unfold St.env St.lookup
+  induction st.scopes with
+  | nil => simp [getVar, Attrs.lookupTable]
+  | cons s rest ih =>
+    rw [List.flatMap_cons, lookupTable_append, ih, getVar]
+    cases Attrs.lookupTable s.vars k <;> simp
+
+
 theorem updateElement_scopes (ev : Evalr ρ) (st : St ρ) (e : Elem) : (updateElement ev st e).scopes = st.scopes := by
   unfold updateElement; split <;> rfl
 
 theorem groupFinish_scopes (ev : Evalr ρ) (st : St ρ) e r : (groupFinish ev st e r).1.scopes = st.scopes := by
   unfold groupFinish
   dsimp only
+  have h : (if r.2.isSome then setPrev (updateElement ev st { e with contentBBox := r.2 }) { e with contentBBox := r.2 }
+      else updateElement ev st { e with contentBBox := r.2 }).scopes = st.scopes := by
+    split <;> simp [setPrev, updateElement_scopes]
   split
-  · simp [setPrev, updateElement_scopes]
-  · split <;> simp [setPrev, updateElement_scopes]
+  · exact h
+  · split <;> exact h
 
 theorem seq_scopes {α β : Type} (x : St ρ × Except CErr α) (f : St ρ → α → St ρ × Except CErr β) (S : List Scope)
     (hx : x.1.scopes = S) (hf : ∀ v, (f x.1 v).1.scopes = S) : (seq x f).1.scopes = S := by
@@ -101,8 +124,8 @@ theorem group_restores_bindings (ev : Evalr ρ) (fuel : Nat) (st : St ρ) (e : E
     with the bindings in force before the element (`st.lookup`), so `<var a="$b" b="$a"/>` swaps -/
 theorem var_parallel_assignment (ev : Evalr ρ) (st : St ρ) (a b va vb wa wb : Str) (r1 r2 : ρ)
     (ha : a ≠ ['_'] ∧ a ≠ cs!"__") (hb : b ≠ ['_'] ∧ b ≠ cs!"__")
-    (h1 : ev.evalAttr st.lookup st.rng va = .ok (wa, r1))
-    (h2 : ev.evalAttr st.lookup r1 vb = .ok (wb, r2))
+    (h1 : ev.evalAttr st.geo st.env st.rng va = .ok (wa, r1))
+    (h2 : ev.evalAttr st.geo st.env r1 vb = .ok (wb, r2))
     (hla : (String.ofList wa).utf8ByteSize ≤ st.cfg.varLimit)
     (hlb : (String.ofList wb).utf8ByteSize ≤ st.cfg.varLimit) :
     (genVar ev st { name := cs!"var", attrs := [(a, va), (b, vb)] }).1 =
@@ -136,3 +159,4 @@ end Svgdx.Props.C15
 #print axioms Svgdx.Props.C15.group_restores_bindings
 #print axioms Svgdx.Props.C15.var_parallel_assignment
 #print axioms Svgdx.Props.C15.var_touches_innermost_only
+#print axioms Svgdx.Props.C15.env_denotes_lookup
